@@ -116,8 +116,10 @@ fn run_case(case: &Case) -> Result<(bool, Vec<&'static str>), Failure> {
             rep.sim_time,
             time
         );
+        // the BinaryHeap backend only promises time order: with a cut inside a tie group other members of the group
+        // (with other children) may have been dispatched, so the number of pending events is not determined
         vensure!(
-            rep.remaining == *rem,
+            rep.remaining == *rem || (cfg!(vcheck_heap_backend) && m.tie_dispatches > 0),
             "step-remaining-count",
             "after step #{k} ({:?}) {} events remain, expected {}",
             steps[k],
@@ -127,6 +129,7 @@ fn run_case(case: &Case) -> Result<(bool, Vec<&'static str>), Failure> {
     }
     // (a) same events, same order, same times
     if !has_ext {
+        // (the BinaryHeap is deterministic for one operation sequence, and stepping no longer changes that sequence)
         prog::diff_traces("stepped run vs uninterrupted run", "stepped-differs-from-uninterrupted", &stepped.trace, &whole.trace)?;
         vensure!(
             stepped.end_time == whole.end_time && stepped.event_count == whole.event_count,
@@ -143,7 +146,7 @@ fn run_case(case: &Case) -> Result<(bool, Vec<&'static str>), Failure> {
         // on this program (otherwise tie order is C03's business).
         let mut a = stepped.trace.clone();
         let mut b = m.trace.clone();
-        if whole.trace != whole_model.trace {
+        if whole.trace != whole_model.trace || cfg!(vcheck_heap_backend) {
             a.sort_by_key(|(id, t)| (*t, *id));
             b.sort_by_key(|(id, t)| (*t, *id));
             let mut sorted = stepped.trace.clone();
@@ -222,5 +225,12 @@ impl Prop for C10 {
             Ok((nt, labels)) => Outcome::ok(nt, labels),
             Err(f) => Outcome::failed(f),
         }
+    }
+    #[cfg(not(vcheck_heap_backend))]
+    fn extra(tier: Tier, seed: u64, ev: &mut ExtraEvidence) -> Vec<Violation> {
+        if tier != Tier::Thorough {
+            return Vec::new();
+        }
+        heap_backend_extra("C10", seed, ev)
     }
 }
